@@ -87,7 +87,7 @@ Fresh(l, cfg, prev) ==
    cid |-> cfg.client_id, kaAdv |-> cfg.ka, K |-> 0,
    reqs |-> << >>, hmap |-> << >>, recn |-> 0,
    owed |-> << >>, aw |-> 0, sids |-> {},
-   unres |-> {}, pe |-> "", dcan |-> FALSE, taint |-> 0, connectLen |-> 0, d9b |-> FALSE,
+   unres |-> {}, dcids |-> {}, pe |-> "", dcan |-> FALSE, taint |-> 0, connectLen |-> 0, d9b |-> FALSE,
    lastDone |-> 0, pingAt |-> -1, pingOut |-> FALSE, overslept |-> TRUE, wake |-> -1,
    dead |-> FALSE, ioDead |-> << 0, 0, 0 >>, lastio |-> << 0, 0, 0 >>,
    sum |-> EmptySum, prev |-> prev, mark |-> 0,
@@ -279,7 +279,8 @@ OutAck(h0, d) ==
 OutPubrel(h0, d) ==
   LET h == Tick(h0, "C03")
       k == ById(h, d.id, {"P2"}) IN
-  IF k = 0 \/ h.reqs[k].ph # "rec"
+  IF d.id \in h.dcids THEN h
+  ELSE IF k = 0 \/ h.reqs[k].ph # "rec"
   THEN Viol(h, "C03", "PUBREL without a successful PUBREC for an exchange in progress")
   ELSE LET r == h.reqs[k]
            cnt == IF r.rsc = h.ci THEN r.rn + 1 ELSE 1
@@ -390,11 +391,13 @@ InAck(h, d) ==
                  IF F = {} THEN 0 ELSE d.codes[CHOOSE i \in F : \A j \in F : i <= j]
             ELSE d.rc
   IN
-  IF k = 0 THEN
+  IF d.id \in h.dcids THEN [h EXCEPT !.op.dc = TRUE]
+  ELSE IF k = 0 THEN
      \* stale acknowledgement; one that names an identifier in flight for another packet kind
      \* comes from a broker outside the assumptions: stop making claims about that operation
+     \* and about that identifier
      IF any # 0 /\ ~(d.t = PUBREC /\ h.reqs[any].kind = "P2")
-     THEN [h EXCEPT !.reqs[any].st = "dc", !.op.dc = TRUE] ELSE h
+     THEN [h EXCEPT !.reqs[any].st = "dc", !.op.dc = TRUE, !.dcids = @ \cup {d.id}] ELSE h
   ELSE LET r == h.reqs[k] IN
     IF d.t = PUBREC THEN
        IF r.ph = "rec" THEN h                                            \* duplicate PUBREC
